@@ -7,7 +7,7 @@ Import ListNotations.
 Local Open Scope Z_scope.
 
 Lemma construct_fields_triv mv : forall L fls fld sb db ms md,
-  all_ctriv L = true -> construct_fields mv L fls fld sb db ms md = (ms, md, []).
+  all_ctriv mv L = true -> construct_fields mv L fls fld sb db ms md = (ms, md, []).
 Proof.
   induction L as [|p L IH]; intros fls fld sb db ms md H; [reflexivity|].
   unfold all_ctriv in H. cbn [forallb] in H. apply andb_true_iff in H. destruct H as [Hp HL].
@@ -66,7 +66,7 @@ Qed.
 Section ElemFromRef.
   Variable L : list param.
   Hypothesis Hwf : wf_plist L = true.
-  Hypothesis Hct : all_ctriv L = true.
+  Hypothesis Hct : forall mv, all_ctriv mv L = true.
 
   Let HF : Forall wfp L := wf_plist_Forall L Hwf.
   Let Hne : L <> [] := wf_plist_nonempty L Hwf.
@@ -111,7 +111,7 @@ Section ElemFromRef.
     e_bid el = Some nb /\ e_aid el = aid /\ e_units el = units L (elem_end L a t - a).
   Proof.
     intros Ht He Ha Hd. unfold elem_from_ref, store_and_load.
-    rewrite construct_fields_triv by exact Hct.
+    rewrite construct_fields_triv by (apply Hct).
     rewrite (ref_fl_bytes t a fc Ht Ha Hd).
     cbn [e_mem e_fl e_bid e_aid e_units].
     assert (Hhd : fst (hd fld0 (ref_fl t a)) = a).
@@ -140,7 +140,7 @@ End ElemFromRef.
 Section ElemCopies.
   Variable L : list param.
   Hypothesis Hwf : wf_plist L = true.
-  Hypothesis Hct : all_ctriv L = true.
+  Hypothesis Hct : forall mv, all_ctriv mv L = true.
   Hypothesis Hdt : all_dtriv L = true.
 
   (* an element that holds the tuple t: its block has the tuple at offset 0 and its reference
@@ -157,10 +157,10 @@ Section ElemCopies.
     elem_holds d t /\ e_bid d = Some nb /\ e_aid d = aid /\ e_units d = e_units src.
   Proof.
     intros Ht [He Hfl]. unfold elem_copy, store_and_load.
-    rewrite construct_fields_triv by exact Hct. rewrite Hfl.
+    rewrite construct_fields_triv by (apply Hct). rewrite Hfl.
     pose proof (elem_from_ref_spec L Hwf Hct false (e_mem src) 0 t fc (bidn (e_bid src)) aid junk nb Ht He
                   ltac:(lia) SA_div0) as H.
-    unfold elem_from_ref, store_and_load in H. rewrite construct_fields_triv in H by exact Hct.
+    unfold elem_from_ref, store_and_load in H. rewrite construct_fields_triv in H by (apply Hct).
     cbn [e_mem e_fl e_bid e_aid e_units] in *.
     destruct H as (_ & H2 & H3 & _). repeat split; assumption.
   Qed.
@@ -177,10 +177,10 @@ Section ElemCopies.
     intros Ht [He Hfl] Hpath. unfold elem_copy_assign. rewrite Hpath.
     assert (Hd : elem_destruct L d = (d, [])).
     { unfold elem_destruct. destruct (e_bid d); [rewrite Hdt|]; reflexivity. }
-    rewrite Hd. unfold store_and_load. rewrite construct_fields_triv by exact Hct. rewrite Hfl.
+    rewrite Hd. unfold store_and_load. rewrite construct_fields_triv by (apply Hct). rewrite Hfl.
     pose proof (elem_from_ref_spec L Hwf Hct false (e_mem src) 0 t fc (bidn (e_bid src)) 0 junk nb Ht He
                   ltac:(lia) SA_div0) as H.
-    unfold elem_from_ref, store_and_load in H. rewrite construct_fields_triv in H by exact Hct.
+    unfold elem_from_ref, store_and_load in H. rewrite construct_fields_triv in H by (apply Hct).
     cbn [e_mem e_fl e_bid e_aid e_units] in *.
     destruct H as (_ & H2 & H3 & _). repeat split; assumption.
   Qed.
